@@ -4,6 +4,7 @@ from enum import Enum
 from io import StringIO
 from typing import Any, TextIO
 
+from xsdata.exceptions import SerializerError
 from xsdata.formats.dataclass.context import XmlContext
 from xsdata.utils import collections
 from xsdata.utils.objects import literal_value
@@ -70,8 +71,12 @@ class PycodeSerializer:
 
         Returns:
             The `from x import y` statements as string.
+
+        Raises:
+            SerializerError: If two types from different modules share a name.
         """
         imports = set()
+        modules: dict[str, str] = {}
         for tp in types:
             module = tp.__module__
             name = tp.__qualname__
@@ -80,6 +85,12 @@ class PycodeSerializer:
                     name = name.split(".")[0]
 
                 imports.add(f"from {module} import {name}\n")
+
+            if modules.setdefault(name, module) != module:
+                raise SerializerError(
+                    f"Name `{name}` is defined in both "
+                    f"`{modules[name]}` and `{module}`"
+                )
 
         return "".join(sorted(imports))
 
